@@ -55,6 +55,7 @@ int main(int argc, char** argv)
     "derivative consistency by 4th order difference quotients at the full lattice, node-functional duality, interpolation reproduction of a spanning "
     "polynomial set incl. gradients/Hessians, two-sided continuity on the shared facet. Non-trivial = anything but the reference cell in canonical "
     "numbering without twist; hashed by (family, vertex coordinates, all index sets).";
+  spec.max_fail_per_worker = 1000000; // known findings fire in every case of the affected family
   spec.bounds_quick = "shapes line/tria/quad/tetra/hexa; 1-cell: 3-all numberings x {ref,affine,nonaffine} x single-entity twists; 2-cell: pairs (g,0),(0,g),(g,g),(g,7g+3) x global twists";
   spec.bounds_thorough = "1-cell: all numberings x 5 geometries x single-entity twists; 2-cell: ALL pairs of numberings (quad 64, tria 36, tetra 576, hexa 2304) x global twists";
   spec.assumptions = {
